@@ -459,6 +459,10 @@ def check_C03(ctx):
     rng = random.Random(ctx.seed * 3001 + 3)
     srcs = [blocks_program(rng) for _ in range(ctx.n(1000, 10000))]
     srcs += [blocks_program(rng, with_bind=True, inject_error=False) for _ in range(ctx.n(300, 3000))]
+    srcs += [b"def svc { port = 8000\n var port = port+1\n port = port+10\n addr = \"host:\"+port }\n",
+             b"def a { retries = 1 }\nvar retries = 5\ndef b { x = retries }\ndef c { retries = 9\n y = retries }\n",
+             b"def a { f = 1\n def b { f = 2\n var f = 3\n g = f }\n h = f\n var f = 4\n i = f }\n",
+             b"def a { var v = 1\n v = 2\n w = v }\ndef b { v = 3\n w = v }\n"]
     srcs += [b'def g { def tls { }\n def tls2 { conns = 100\n def burst { n = 5 } } }\ndef h { def tls { }\n def log { path = "/var/log/a" } }\n',
              b'def a { def e { }\n def f { x = 1 } }\ndef b { def e { }\n def f { y = 2 } }\n',
              b'def s "a" { x = 1 }\ndef s "b" { x = 2 }\ndef s "a" { x = 3 }\nbind s:all -> slice\n',
